@@ -36,6 +36,11 @@ def run(check: Check, world_spec, monitor_spec, K: int, H: int, needs: Sequence[
     for cell in needs:
         if not any(res.cov.get(alt, 0) > 0 for alt in cell.split("|")):
             check.vacuous.append(f"{name}:{cell}")
+    from .canon import AUDIT_KEPT
+
+    if AUDIT_KEPT and not any("static audit" in n for n in check.notes):
+        check.notes.append(f"static audit: new reads of dropped fields found; kept in the state key for this run: {AUDIT_KEPT}")
+    cov["abstraction_audit"] = {"fields_put_back_into_key": list(AUDIT_KEPT)}
     if res.cov.get("CAPPED"):
         check.notes.append(f"{name}: exploration capped before the horizon (max_states / deadline); not exhaustive")
     for sig, v in res.violations.items():
